@@ -31,11 +31,11 @@ import (
 func replayModel(prog *vc.Prog, it *oblResult, model string) (string, string) {
 	fn := it.vcx.Fn
 	if fn.Signature.Recv() != nil || len(fn.FreeVars) > 0 {
-		return "not-replayable", "replay supports package-level functions only"
+		return replayStructModel(prog, it)
 	}
 	for _, p := range fn.Params {
 		if !scalarType(p.Type()) {
-			return "not-replayable", "parameter " + p.Name() + " of type " + p.Type().String() + " is not a scalar"
+			return replayStructModel(prog, it)
 		}
 	}
 	res := fn.Signature.Results()
